@@ -313,8 +313,10 @@ def _deep_origins(f, op, depth=0):
 
     def go_rv(rv):
         k = rv["k"]
-        if k in ("use", "cast", "unop", "repeat"):
-            go_op(rv.get("op") or rv.get("a"))
+        if k in ("use", "cast", "repeat"):
+            go_op(rv.get("op"))
+        elif k == "unop":
+            go_op(rv.get("a"))
         elif k in ("ref", "rawptr", "discr"):
             go_op({"k": "copy", "pl": rv["pl"]})
         elif k == "binop":
